@@ -57,7 +57,7 @@ CLAIMED["C19"] = dict(
 
 CLAIMED["C04"] = dict(
   text="Bounded symbolic verification (SMT over go/ssa) of the REAL rtpDownTrack.Write (PacketFlags via pion, layer bookkeeping, adjustLayer, packetmap, RewritePacket) as an INDUCTIVE step from an arbitrary layer word satisfying the invariant (selected <= wanted/seen, fields <= 7): the invariant is preserved, the temporal layer falls only at a frame start and rises only at a keyframe or an up-switch point not above the wanted layer (or follows a new top layer), an in-order packet above the selected layer is withheld and all others forwarded; plus losslessness of the 32-bit packing. Bitrate estimate and clock are arbitrary, so every adjustLayer outcome is covered.",
-  note="Bounds: one VP8 packet (single-packet frame shape with 15-bit picture id and TID octet), tid 0..3, all seqnos/pids/flags/layer words. Also: replaceTracks stores the video-low limit on an existing connection from an arbitrary layer state; requestedTracks' limitSid rule is in C07. NOT yet encoded: VP9 spatial-layer switching through Write, updateRate's AIMD clamp, interleavings with RTCP feedback (the arbitrary pre-state covers any prior feedback, not a store racing between Write's load and store). Function-level stubs: TrackLocalStaticRTP.Write (capturing model), Estimator.Estimate/Accumulate, rtptime.Jiffies - natively intercepted for replay by overlaying patched copies of their source files (hook variables), nothing in /repo is touched. Trusted: go/ssa, gosmt, z3/cvc5.",
+  note="Bounds: one VP8 packet (single-packet frame shape with 15-bit picture id and TID octet) or one VP9 packet (non-flexible mode with picture id and layer octet), tid/sid 0..3, all seqnos/pids/flags/layer words. Also: replaceTracks stores the video-low limit on an existing connection from an arbitrary layer state; requestedTracks' limitSid rule is in C07. Also: the same inductive step for VP9 packets (spatial layer changes only at a keyframe start or follows a new top layer; non-reference lower-layer packets withheld; a pending switch requests a keyframe), and updateRate's clamp to [9600, 2^30] for every previous value, loss, clock and estimate. NOT encoded: interleavings with RTCP feedback (the arbitrary pre-state covers any prior feedback, not a store racing between Write's load and store). Function-level stubs: TrackLocalStaticRTP.Write (capturing model), Estimator.Estimate/Accumulate, rtptime.Jiffies - natively intercepted for replay by overlaying patched copies of their source files (hook variables), nothing in /repo is touched. Trusted: go/ssa, gosmt, z3/cvc5.",
   technique="inductive-step symbolic execution of go/ssa with SMT (z3/cvc5); function stubs replayed natively through source-overlay hooks",
   ref="4-C04")
 
